@@ -293,6 +293,21 @@ def seek_landing(F, R):
                     '(stores: %s): the following chunk is labelled with the wrong start frame' % (b.path, [d[:80] for _, d in stores]),
                     detail={'caller': b.path, 'recorded': 'result of Decoder::seek'}, where=b.where(sb))
     R.floor('B.C18.seek', n, 3)
+    # which frame the decoder is sent to: a seek command's target is handed on as it is (it is then wrapped into the loop
+    # region by the transport, and the frame lookup adds the slice's start when it fetches the frame); the frame lookup
+    # seeks to the frame it was asked for plus the start of the slice.  An offset added in the wrong one of the two sends the
+    # decoder past the end of the file for a wrapped seek inside a slice
+    for b in F.bodies:
+        if b.krate != 'kira' or not b.path.startswith('sound::streaming::sound::decode_scheduler::') or '{closure' in b.path:
+            continue
+        fn = b.path.split('::')[-1]
+        for bb, t in b.calls():
+            if (callee_path(t) or '') != SEEK or fn not in ('seek_to_index', 'frame_at_index'):
+                continue
+            from ..paths import describe as _dd
+            d = _dd(b, t['args'][1], depth=6, at=bb)
+            good = d == 'index' if fn == 'seek_to_index' else (d.startswith('Add(') and 'index' in d and '.slice' in d and d.count('Add(') == 1)
+            R.check(good, 'B.C18.seek', 'target:' + fn, 'DecodeScheduler::%s sends the decoder to %s' % (fn, d[:100]), detail={'target': d[:120]}, where=b.where(bb), nontrivial=False)
     # 'after any sequence of seeks': a seek request is carried out - seek_to_index has no success path that leaves the decoder
     # where it was (a "same target as last time" shortcut drops the second of two seeks to one position)
     DS0 = 'sound::streaming::sound::decode_scheduler::DecodeScheduler::<Error>'
